@@ -2,6 +2,8 @@ import SFV.Proofs.GaussNM
 import SFV.Proofs.Physical
 import SFV.Proofs.FockTensor
 import SFV.Proofs.Bridge
+import SFV.Proofs.FockLoss
+import SFV.Proofs.GaussRegister
 
 /-!
 # C07 — every simulated state is physical and gates conserve what they must
@@ -108,11 +110,50 @@ theorem fock_hermitian_preserved {K : Type} [CommSemiring K] (cj : K →+* K) (h
     SFV.Fock.Herm cj (SFV.Fock.applyAt1 D (fun v b => cj (mat v b)) (2 * m + 1) (SFV.Fock.applyAt1 D mat (2 * m) ρ)) :=
   SFV.Fock.herm_conj1 cj hinv D mat m ρ hρ
 
+/-- **the Fock loss channel is trace preserving on the truncated space, exactly**: with the `D` Kraus operators
+`E(0), …, E(D−1)` of `ops.lossChannel(T, D)` (band amplitudes `e k n`, `e² = C(n,k)(1−T)^k T^{n−k}`), tracing the target mode
+after `Circuit.loss(T, m)` gives what it gave before — for every cutoff, transmissivity, register size, position and density
+tensor, also one that populates the top level `D − 1` (nothing can be truncated by a loss) -/
+theorem fock_loss_trace_preserving {K : Type} [CommRing K] (e : Nat → Nat → K) (T : K)
+    (he : ∀ k n, e k n * e k n = SFV.Fock.lossSq T k n) (D m : Nat) (ρ : SFV.Fock.Tens K) (idx : SFV.Fock.Idx) :
+    (∑ v ∈ Finset.range D, SFV.Fock.applyChannel1 D (SFV.Fock.lossKrausList e D) m ρ
+        (SFV.Fock.upd (SFV.Fock.upd idx (2 * m) v) (2 * m + 1) v)) =
+      ∑ v ∈ Finset.range D, ρ (SFV.Fock.upd (SFV.Fock.upd idx (2 * m) v) (2 * m + 1) v) :=
+  SFV.Fock.loss_trace_preserving e T he D m ρ idx
+
+/-- … because `Σ_k E(k)† E(k) = 1` there, by the binomial theorem; one operator fewer (an off-by-one in the list, seeded change
+C07-b1) and the relation fails at the top level (`D = 3`, `T = 1/2`: `3/4`) -/
+theorem fock_loss_kraus_complete {K : Type} [CommRing K] (e : Nat → Nat → K) (T : K)
+    (he : ∀ k n, e k n * e k n = SFV.Fock.lossSq T k n) (D a b : Nat) (ha : a < D) (hb : b < D) :
+    ((SFV.Fock.lossKrausList e D).map fun k => ∑ v ∈ Finset.range D, k.1 v a * k.2 v b).sum = if a = b then 1 else 0 :=
+  SFV.Fock.loss_complete e T he D D (Nat.le_refl D) a b ha hb
+
+theorem fock_loss_kraus_incomplete_counterexample (e : Nat → Nat → ℚ)
+    (he : ∀ k n, e k n * e k n = SFV.Fock.lossSq (1/2 : ℚ) k n) :
+    ((SFV.Fock.lossKrausList e 2).map fun k => ∑ v ∈ Finset.range 3, k.1 v 2 * k.2 v 2).sum = 3 / 4 :=
+  SFV.Fock.loss_incomplete_counterexample e he
+
+/-- **Fock loss scales the photon number by `T`**: level `n` goes to the levels `n − k` with weights `|E(k)[n−k,n]|²`, whose
+mean is `T · n` -/
+theorem fock_loss_photon_number {K : Type} [CommRing K] (T : K) (n : Nat) :
+    ∑ k ∈ Finset.range (n + 1), ((n - k : Nat) : K) * SFV.Fock.lossSq T k n = (n : K) * T :=
+  SFV.Fock.loss_photon_number T n
+
+/-- **registers that grow and shrink keep the invariant**: after any sequence of gates, channels, `New` and `Del` -/
+theorem gaussian_register_invariant {K : Type} [CommRing K] (ops : List (ROp K)) (n : Nat) (hok : ∀ op ∈ ops, op.ok) :
+    NMInv (ops.foldl applyNMR (vacuum n)) :=
+  (applyNMR_program ops (vacuum n) (vacuum_inv n) hok).2
+
 /-! ### non-vacuity: the one-mode vacuum satisfies the uncertainty relation's premises -/
 example : (3 / 5 : Rat) * (3 / 5) + (4 / 5) * (4 / 5) = 1 ∧ (5 / 4 : Rat) * (5 / 4) - (3 / 4) * (3 / 4) = 1 := by
   norm_num
 example : (!![0, 1; -1, 0] : Matrix (Fin 2) (Fin 2) ℝ) * !![0, 1; -1, 0] * (!![0, 1; -1, 0] : Matrix (Fin 2) (Fin 2) ℝ)ᵀ
     = !![0, 1; -1, 0] := by
   ext i j; fin_cases i <;> fin_cases j <;> simp [Matrix.mul_apply, Fin.sum_univ_two]
+
+/-- amplitudes exist: at `T = 1` (no loss) and at `T = 0` (total loss) the squares are 0 or 1, so `e = lossSq` works -/
+example : ∀ k ∈ List.range 3, ∀ n ∈ List.range 3,
+    SFV.Fock.lossSq (1 : ℚ) k n * SFV.Fock.lossSq (1 : ℚ) k n = SFV.Fock.lossSq (1 : ℚ) k n := by
+  decide +kernel
 
 end SFV.C07
